@@ -1,7 +1,9 @@
 //! `rvh` — the Rust side of the correspondence check: calls the real raft-rs code in-process and
 //! writes a trace in the line protocol that the Lean driver `rvm` re-executes on the model.
 mod gen_cluster;
+mod gen_confchange;
 mod gen_inflights;
+mod gen_quorum;
 mod rng;
 
 use std::io::{BufWriter, Write};
@@ -19,6 +21,8 @@ fn arg<T: std::str::FromStr>(args: &[String], name: &str, default: T) -> T {
 fn replay(path: &str, out: &mut dyn Write) -> u64 {
     let text = std::fs::read_to_string(path).expect("read replay file");
     let mut inf = gen_inflights::Exec::default();
+    let mut quo = gen_quorum::Exec::default();
+    let mut cc = gen_confchange::Exec::default();
     let mut n = 0;
     for line in text.lines() {
         let lhs = line.split(" -> ").next().unwrap_or("");
@@ -28,12 +32,27 @@ fn replay(path: &str, out: &mut dyn Write) -> u64 {
         }
         let obs = match toks[0] {
             "inf" => inf.exec(&toks[1..]),
+            "q" => quo.exec(&toks[1..]),
+            "cc" => cc.exec(&toks[1..]),
             _ => "bad-op".to_string(),
         };
         writeln!(out, "{} -> {}", lhs.trim(), obs).unwrap();
         n += 1;
     }
     n
+}
+
+/// `--testdata-dir DIR`, else `<path of the raft dependency in Cargo.toml>/src/confchange/testdata`
+fn repo_testdata_dir(args: &[String]) -> String {
+    if let Some(i) = args.iter().position(|a| a == "--testdata-dir") {
+        return args[i + 1].clone();
+    }
+    let manifest = include_str!("../Cargo.toml");
+    let line = manifest.lines().find(|l| l.starts_with("raft =")).expect("raft dependency");
+    let path = line.split("path = \"").nth(1).and_then(|r| r.split('"').next()).expect("path");
+    let p = std::path::Path::new(path);
+    let p = if p.is_absolute() { p.to_path_buf() } else { std::path::Path::new(env!("CARGO_MANIFEST_DIR")).join(p) };
+    p.join("src/confchange/testdata").to_string_lossy().into_owned()
 }
 
 fn json_str(s: &str) -> String {
@@ -112,6 +131,24 @@ fn real_main() {
                 gen_inflights::exhaustive(arg(&args, "--max-cap", 3), arg(&args, "--len", 5), &mut out)
             } else {
                 gen_inflights::random(seed, arg(&args, "--cases", 5000), arg(&args, "--len", 40), &mut out)
+            }
+        }
+        "quorum" => {
+            if args.iter().any(|a| a == "--testdata") {
+                gen_quorum::testdata(&mut out)
+            } else if args.iter().any(|a| a == "--exhaustive") {
+                gen_quorum::exhaustive(arg(&args, "--ids", 3), arg(&args, "--max-idx", 2), arg(&args, "--max-grp", 2), &mut out)
+            } else {
+                gen_quorum::random(seed, arg(&args, "--cases", 20000), arg(&args, "--max-ids", 9), &mut out)
+            }
+        }
+        "confchange" => {
+            if args.iter().any(|a| a == "--testdata") {
+                gen_confchange::testdata(&repo_testdata_dir(&args), &mut out)
+            } else if args.iter().any(|a| a == "--exhaustive") {
+                gen_confchange::exhaustive(arg(&args, "--ids", 3), arg(&args, "--len", 2), arg(&args, "--depth", 2), &mut out)
+            } else {
+                gen_confchange::random(seed, arg(&args, "--cases", 3000), arg(&args, "--len", 12), &mut out)
             }
         }
         "cluster" => cluster(&args, seed, &mut out),
